@@ -11,6 +11,7 @@ import GocoinV.Proofs.C01NoPanic
 import GocoinV.Proofs.C01Loop
 import GocoinV.Proofs.C01Wrap
 import GocoinV.Proofs.C01SigRef
+import GocoinV.Base.Sha256
 namespace GocoinV.Props.C01
 open GocoinV GocoinV.Script GocoinV.Proofs.C01
 
@@ -378,6 +379,63 @@ theorem sighash_model_is_reference_taproot (H : Bytes → Bytes) (F : SigRef.Ful
 /-- non-vacuity: the empty cache is a reachable cache state, and the legacy reference is defined on a concrete input -/
 example (H : Bytes → Bytes) (F : SigRef.FullTx) : SigHash.Cache.OK H F.tx F.spent {} := SigHash.Cache.OK_empty H F.tx F.spent
 example : ∃ d, SigRef.legacyDigest (fun b => b) ⟨Props.C02.exTx, Props.C02.exSpent, 1⟩ [0x51] 3 = some d := ⟨_, rfl⟩
+
+/-! ## (viii-b) the two properties joined: C02's model of the sighash functions as the crypto instance -/
+
+/-- CENTRAL THEOREM WITH PROPERTY C02's MODEL OF THE TREE'S SIGHASH FUNCTIONS PLUGGED IN — neither `SigHashIsRef` nor
+    `TapSigHashOk` is a hypothesis any more. Take any hash function without empty outputs, any transaction `F` that is
+    the one the interpreter's context `tx` was cut from (`Consistent`), and let the three signature-digest answers be
+    what C02's Lean model of `Tx.SignatureHash` / `Tx.WitnessSigHash` / `Tx.TaprootSigHash` returns on `F` (`c02Instance`:
+    every query may find the per-transaction hash cache in a different state, as long as each state is one the cache can
+    be in — `SigHash.Cache.OK`; nil is the empty string; the double hash is the hash applied twice). Then the model of
+    `script.VerifyTxScript` on those answers gives the verdict of the rules on the rules' OWN digests: true where they
+    raise no error, false where they raise one, never a panic. What remains outside is exactly the two ties: that
+    lib/script behaves as its model (this property's run) and lib/btc's sighash functions as theirs (property C02's run,
+    and the per-query comparison `sighash-vs-reference` here). -/
+theorem script_equiv_c02_model (T0 : TotalOracles) (tx : TxCtx) (pk : Bytes) (flags : Nat) (F : SigRef.FullTx)
+    (cw : Bytes → Nat → SigHash.Cache) (ct : Option Bytes → Bytes → Nat → Nat → Bool → SigHash.Cache)
+    (hf : ScriptSpec.FlagsOk (ScriptSpec.Flags.ofMask flags)) (hq : NopsOk flags) (hc : Consistent F tx)
+    (hsha : ∀ b, T0.sha256 b ≠ [])
+    (hcw : ∀ sc ht, SigHash.Cache.OK T0.sha256 F.tx F.spent (cw sc ht))
+    (hct : ∀ a l cs ht s, SigHash.Cache.OK T0.sha256 F.tx F.spent (ct a l cs ht s)) :
+    verifyTxScript (c02Instance T0 F cw ct).toOracles tx pk flags =
+      (match ScriptSpec.verifyScript (SigRef.withRefSigHash (c02Instance T0 F cw ct).toOracles F tx.witness) tx pk
+          (ScriptSpec.Flags.ofMask flags) with
+       | .ok () => .ok ()
+       | .error _ => .fail) :=
+  script_equiv_ref_digests _ tx pk flags F hf hq (c02Instance_tapOk T0 F tx cw ct hc hsha hct)
+    (c02Instance_isRef T0 F cw ct tx.witness hc.spent hc.inRange hcw hct)
+
+/-- a hash function without empty outputs (for the non-vacuity examples; the theorems are parametric in the hash) -/
+def exT0 : TotalOracles :=
+  ⟨fun _ => [0], id, id, id, id, fun _ _ => [], fun _ _ => [], fun _ _ _ _ _ => [], fun _ _ _ => false, fun _ _ _ => false,
+   fun _ _ _ _ => false⟩
+def exF : SigRef.FullTx := ⟨Props.C02.exTx, Props.C02.exSpent, 1⟩
+def exCtx : TxCtx := { version := 2, lockTime := 7, sequence := 5, idx := 1, nOuts := 1, sigScript := [], witness := [] }
+
+def exCw : Bytes → Nat → SigHash.Cache := fun _ _ => {}
+def exCt : Option Bytes → Bytes → Nat → Nat → Bool → SigHash.Cache := fun _ _ _ _ _ => {}
+
+/-- non-vacuity of `script_equiv_c02_model`, all hypotheses jointly on a concrete input (two inputs, one output, second
+    input under verification, consensus flags, every query on the empty cache) -/
+example :
+    ScriptSpec.FlagsOk (ScriptSpec.Flags.ofMask (VER_P2SH ||| VER_DERSIG ||| VER_NULLDUMMY ||| VER_CLTV ||| VER_CSV ||| VER_WITNESS ||| VER_TAPROOT)) ∧
+    NopsOk (VER_P2SH ||| VER_DERSIG ||| VER_NULLDUMMY ||| VER_CLTV ||| VER_CSV ||| VER_WITNESS ||| VER_TAPROOT) ∧
+    Consistent exF exCtx ∧ (∀ b, exT0.sha256 b ≠ []) ∧
+    (∀ sc ht, SigHash.Cache.OK exT0.sha256 exF.tx exF.spent (exCw sc ht)) ∧
+    (∀ a l cs ht s, SigHash.Cache.OK exT0.sha256 exF.tx exF.spent (exCt a l cs ht s)) :=
+  ⟨by decide, by unfold NopsOk; decide, ⟨rfl, rfl, by decide, rfl⟩, fun _ => by simp [exT0],
+   fun _ _ => SigHash.Cache.OK_empty _ _ _, fun _ _ _ _ _ => SigHash.Cache.OK_empty _ _ _⟩
+
+/-- non-vacuity of `tapSigHashOk_of_reference`, all hypotheses jointly and concretely (the earlier example leaves the
+    hash function and the pair (F, tx) universally quantified) -/
+example : Consistent exF exCtx ∧ (∀ b, exT0.sha256 b ≠ []) ∧
+    (∀ a l c ht s, ∃ annex, (refInstance exT0 exF exCtx.witness).sigHashTap a l c ht s =
+        SigRef.tapDigest (refInstance exT0 exF exCtx.witness).sha256 exF annex l c ht s) :=
+  ⟨⟨rfl, rfl, by decide, rfl⟩, fun _ => by simp [exT0], fun _ _ _ _ _ => ⟨_, rfl⟩⟩
+/-- the double hash of the instance the oracle runs (Oracle/C01.lean `mkOracles`: `hash256 := sha256d`) is SHA-256
+    applied twice, the form the C02 links above are stated in -/
+example : sha256d = fun b => sha256 (sha256 b) := rfl
 
 /-! ## (ix) the words of the spending transaction that evaluation reads are UNSIGNED -/
 
